@@ -29,11 +29,11 @@ RECURSIVE ToNat(_)
 ToNat(a) == IF Len(a) = 0 THEN 0 ELSE a[1] + Base * ToNat(Tail(a))
 
 Limb(a, i) == IF i <= Len(a) THEN a[i] ELSE 0
-Max(x, y) == IF x >= y THEN x ELSE y
+MaxOf(x, y) == IF x >= y THEN x ELSE y
 
 RECURSIVE AddC(_, _, _, _)
 AddC(a, b, i, carry) ==
-  IF i > Max(Len(a), Len(b)) THEN (IF carry = 0 THEN << >> ELSE <<carry>>)
+  IF i > MaxOf(Len(a), Len(b)) THEN (IF carry = 0 THEN << >> ELSE <<carry>>)
   ELSE LET s == Limb(a, i) + Limb(b, i) + carry
        IN <<s % Base>> \o AddC(a, b, i + 1, s \div Base)
 Add(a, b) == AddC(a, b, 1, 0)
